@@ -1398,6 +1398,91 @@ def ownership_is_immutable(ctx):
     ctx.add(core.decided('closed-world/the-owner-of-a-batch-never-changes', not hits and n > 50, '%d files scanned; %r' % (n, hits[:3]), kind='scan'))
 
 
+def listing_scope(ctx):
+    """listing endpoints: the WHERE clause is ' AND '.join(conditions) whose first condition restricts to the batch of the request
+    path / to the caller's billing projects.  A search term must not be able to widen that scope: every condition appended must be
+    CLOSED under AND (parsed with the project's SQL parser between two sentinels, the sentinels stay top-level conjuncts).  v1
+    builders: the real functions are run natively (returning the list just before the SQL text is formatted) on a corpus that is
+    checked to execute every `condition = ...` site; v2 builders wrap every query condition in parentheses (AST obligation)."""
+    from vc import sqlparse as _sp, sqlast as _A
+
+    Q1, Q2 = 'batch/batch/front_end/query/query_v1.py', 'batch/batch/front_end/query/query_v2.py'
+
+    def conj(e, out):
+        if isinstance(e, _A.BinOp) and e.op == 'AND':
+            conj(e.left, out)
+            conj(e.right, out)
+        else:
+            out.append(e)
+        return out
+
+    def closed(cond):
+        try:
+            e = _sp.parse_expr('sentinel_a = 1 AND ' + cond + ' AND sentinel_b = 2')
+        except Exception as ex:  # pylint: disable=broad-except
+            return None, 'not parsed: %s' % ex
+        cs = conj(e, [])
+        nm = lambda x: getattr(getattr(x, 'left', None), 'parts', None)  # noqa: E731
+        return (len(cs) >= 3 and nm(cs[0]) == ('sentinel_a',) and nm(cs[-1]) == ('sentinel_b',)), ''
+
+    SCOPE = {'parse_list_batches_query_v1': 'billing_project_users.`user` = %s', 'parse_job_group_jobs_query_v1': 'jobs.batch_id = %s'}
+    r = core.run_native(open(os.path.join(os.path.dirname(NATIVE), 'c14_listing.py')).read(), {})
+    if 'error' in r or 'builders' not in r:
+        raise core.CheckerBug('listing helper failed: %r' % (r,))
+    ctx.add(core.decided('C14/listing/v1/builders-found-and-runnable', not r['errors'] and set(r['builders']) == set(SCOPE), repr(r['errors'])[:300]))
+    for name, info in r['builders'].items():
+        ctx.add(core.decided('C14/listing/%s/corpus-executes-every-condition-site' % name, not info['uncovered_condition_sites'], repr(info['uncovered_condition_sites'])))
+        seen = {}
+        for row in info['rows']:
+            conds = row['conditions'] or []
+            ok_scope = bool(conds) and SCOPE[name] in conds[0]
+            seen.setdefault(('scope', ok_scope), row['term'])
+            for c in conds:
+                if c not in seen:
+                    seen[c] = row['term']
+        ctx.add(core.decided('C14/listing/%s/first-condition-restricts-to-the-callers-scope' % name, ('scope', False) not in seen, 'term %r' % seen.get(('scope', False))))
+        n = 0
+        for c, term in seen.items():
+            if isinstance(c, tuple):
+                continue
+            ok, why = closed(c)
+            n += 1
+            ctx.add(core.decided('C14/listing/%s/condition-closed-under-AND#%d' % (name, n), bool(ok), 'condition %r (first produced by term %r) %s' % (' '.join(c.split())[:160], term, why), kind='scan'))
+    # the SQL text joins the conditions with AND at the WHERE of the statement that selects the rows
+    for path, fns in ((Q1, ('parse_list_batches_query_v1', 'parse_list_job_groups_query_v1', 'parse_job_group_jobs_query_v1')), (Q2, ('parse_list_batches_query_v2', 'parse_job_group_jobs_query_v2'))):
+        tree = pyast.parse(core.read_repo(path))
+        for fname in fns:
+            fn = [x for x in tree.body if isinstance(x, pyast.FunctionDef) and x.name == fname]
+            if not fn:
+                ctx.add(core.decided('C14/listing/%s/found' % fname, False, 'anchor-moved'))
+                continue
+            fn = fn[0]
+            joined = [pyast.unparse(x.value) for x in pyast.walk(fn) if isinstance(x, pyast.FormattedValue)]
+            ok = any(j.replace('"', "'") in ("' AND '.join(where_conditions)", "' AND '.join(where_conds)") for j in joined)
+            ctx.add(core.decided('C14/listing/%s/where-clause-is-the-AND-of-the-conditions' % fname, ok, repr(joined)[:200], kind='scan'))
+            if path == Q2:
+                # every appended condition is a literal or a parenthesised query condition f'({cond})'
+                bad = []
+                for x in pyast.walk(fn):
+                    if isinstance(x, pyast.Call) and isinstance(x.func, pyast.Attribute) and x.func.attr == 'append' and pyast.unparse(x.func.value) == 'where_conditions':
+                        a = x.args[0]
+                        t = pyast.unparse(a)
+                        if isinstance(a, pyast.Constant) and isinstance(a.value, str):
+                            if not closed(a.value)[0]:
+                                bad.append(t)
+                        elif isinstance(a, pyast.JoinedStr):
+                            parts = a.values
+                            if not (len(parts) == 3 and isinstance(parts[0], pyast.Constant) and parts[0].value == '(' and isinstance(parts[2], pyast.Constant) and parts[2].value == ')'):
+                                bad.append(t)
+                        elif isinstance(a, pyast.Name) and a.id == 'jg_cond':
+                            pass  # the two literal job-group conditions, checked below
+                        else:
+                            bad.append(t)
+                lits = [x.value.value for x in pyast.walk(fn) if isinstance(x, pyast.Assign) and pyast.unparse(x.targets[0]) == 'jg_cond' and isinstance(x.value, pyast.Constant)]
+                bad += [l for l in lits if not closed(l)[0]]
+                ctx.add(core.decided('C14/listing/%s/every-condition-is-parenthesised' % fname, not bad and (bool(lits) or 'job_group_jobs' not in fname), repr(bad)[:200], kind='scan'))
+
+
 def build(ctx):
     del ROUTE_CLASSES[:]
     wrappers(ctx)
@@ -1405,6 +1490,7 @@ def build(ctx):
     owner_filters(ctx)
     ownership_is_immutable(ctx)
     route_table(ctx)
+    listing_scope(ctx)
     # failing obligations without a replayer of their own: every scenario except the token replay (which has its own obligations)
     ctx.witness_search = lambda: core.run_native(open(NATIVE).read(), {'scenario': 'all', 'routes': ROUTE_CLASSES})
     ctx.extra['policy'] = [{'class': n, 'accepted_protection': list(a), 'property_text': t} for n, _, a, t in POLICY] + [{'class': OTHER[0], 'accepted_protection': list(OTHER[1]), 'property_text': OTHER[2]}]
@@ -1414,7 +1500,7 @@ def build(ctx):
     ctx.assume('strings are compared for equality only and are represented by integer codes on the Python and on the SQL side; MySQL collations (case-insensitive `user` / `billing_project` key columns) are not modelled, user_cs is taken as the case-sensitive identity')
     ctx.assume('SQL semantics (three-valued logic, LEFT JOIN, NULL comparisons) as encoded in vc/sqlvc.py; schema (columns, keys, nullability) from the replayed migrations; the reads of one request see one database state, and a transaction decorated with transaction(db) is rolled back when its body raises (C27)')
     ctx.assume('composition is by call name: a route handler is checked against the contract of the helper it calls (_create_jobs, _create_job_groups, _create_batch_update, _create_batch return normally only behind their gate - each proved on the real helper); after the gate of _create_jobs / _create_job_groups.insert the rest of the function body is dominated by the gate (prefix fragment)')
-    ctx.undecided('listing endpoints (GET /api/v1alpha/batches, /api/v2alpha/batches, /api/v1alpha/batches/completed, /batches, billing pages): their dynamically assembled queries restrict to the caller\'s billing projects, not put under contract here; they are only checked to require an authenticated, active user')
+    ctx.undecided('listing endpoints: the scope condition and the closedness of every search-term condition are decided (listing/...); the joins and sub-selects of the listing queries themselves, and the billing pages, are not under contract')
     ctx.undecided('inside batch-scoped handlers only the batch id is tracked (handed over by the wrapper, never rebound); job / job-group / attempt ids are keyed by it in the queries, which are not under contract')
     ctx.undecided('routes of the batch driver, the auth service itself (sessions, tokens, userinfo), TrustedSingleTenantAuthenticator (its userdata has no state key: the active-state test raises KeyError, i.e. every request fails closed)')
     ctx.undecided('nothing-changes for a rejected caller is decided for the statements of the front end (no write before / without the gate); effects of middlewares and of the asynchronous driver notification are not modelled')
